@@ -240,6 +240,13 @@ func checkC05(c *Ctx) {
 		} else if i%3 == 1 {
 			o.Gen.NReserved = 6
 			withScenarios(o, scenExitRestake(int64(3+i%5)), scenTwinProposals(int64(4+i%6), false))
+		} else if i%6 == 2 {
+			// individual power share limit armed: a rejected oversized delegation followed by small ones to the same validator
+			o.Gen.NVal, o.Gen.NReserved = 4, 6
+			o.Params.MaxValidatorCnt = 6
+			o.Params.MaxUpdatableStakeRatio, o.Params.MaxIndividualStakeRatio = 100, 40
+			o.Params.MinSelfStakeRatio = 0
+			withScenarios(o, scenIndividualLimit(int64(3+i%4)))
 		}
 		hr := runHistory(c, i, c.Rng("hist-C05", i), o)
 		hr.Report("C05")
